@@ -416,6 +416,24 @@ Proof.
 Qed.
 Print Assumptions declared_message_is_removed.
 
+(** ---- sixth round ---- *)
+
+(** Both end-block loops look at EVERY message of a queue (GetMessagesFromQueue(_, _, 0) = everything GetAll
+    returns; the translator refuses a count argument, a slice bound or a re-assignment of the fetched list), so the
+    per-message theorems above apply to a message wherever it sits in a backlog.  (Seeded change C04-M.)
+    And one validator has one estimate entry per message whatever is submitted (a second one is refused), so the
+    shares behind an election are those of DISTINCT submitters.  (Seeded change C04-N.) *)
+Theorem every_queued_message_is_weighed :
+  Gen.C04.endblock_message_getters =
+    ["CheckAndProcessAttestedMessages: k.GetMessagesFromQueue(sdkCtx, opt.QueueTypeName, 0)";
+     "CheckAndProcessEstimatedMessages: k.GetMessagesFromQueue(sdkCtx, opt.QueueTypeName, 0)"]%string /\
+  forall (ops : list qm_op) (m : qmsg),
+    NoDup (map es_val (q_estimates m)) -> NoDup (map es_val (q_estimates (fold_left qm_step ops m))).
+Proof.
+  exact (conj eq_refl (fun ops m H => match estimates_append_only ops m with ex_intro _ _ (conj _ Hn) => Hn H end)).
+Qed.
+Print Assumptions every_queued_message_is_weighed.
+
 
 (* --- source translation tie (GenFn) --- *)
 (* The Go function bodies named below are re-translated from the source on every check
